@@ -39,6 +39,9 @@ pub fn check(tier: Tier) -> Check {
     // identifier spaces made to collide: the next PACKET identifier equals the SUBSCRIPTION identifier
     // of an established subscription (a late SUBACK / cancelled subscribe must not touch that one)
     parts.push(Part::new("C15/streams", json!({"depth": tier.pick(4, 6), "collide": true}), 0, tier.pick(30, 400)));
+    // a publish abandoned while its request is still queued (context task held back): it is sent, its
+    // late acknowledgement frees the slot
+    parts.push(Part::new("C15/abandoned-queued", json!({}), 0, 60));
     // a rolling population of subscriptions: streams dropped, subscribes abandoned before their SUBACK,
     // new subscriptions made - the survivors and the newcomers get every message
     parts.push(Part::new("C15/rolling", json!({"rounds": tier.pick(10, 30)}), 0, 120));
@@ -135,7 +138,52 @@ fn streams(name: String, params: Value) -> Scenario {
     })
 }
 
+/// A publish abandoned between its first poll (the request is queued) and the moment run() takes the
+/// request: the PUBLISH goes out all the same, its late acknowledgement is absorbed and frees the slot -
+/// afterwards exactly R further publishes are accepted and the next one is refused.
+fn abandoned_queued(name: String, params: Value) -> Scenario {
+    Box::new(move |chz, ex| {
+        let r = 1 + chz.choose(3) as u16;
+        let (q, reason) = [(1u8, 0u8), (1, 0x10), (1, 0x80), (2, 0x80), (2, 0x97)][chz.choose(5)];
+        let others_first = chz.choose(2) == 1;
+        let mut sys = Sys::new("C15", &name, chz);
+        sys.params = params.clone();
+        sys.m.check_client_acks = false;
+        sys.bring_up(receive_max(r));
+        if others_first {
+            // another caller's publish is written (and stays unacknowledged for a while)
+            sys.apply(Ev::Start(OpSpec::Publish(PublishSpec::simple(1, "t/o", b"other"))));
+        }
+        sys.apply(Ev::Hold(crate::world::Tid::Ctx));
+        sys.apply(Ev::Start(OpSpec::Publish(PublishSpec::simple(q, "t/a", b"abandoned"))));
+        let op = sys.m.ops.len() - 1;
+        sys.apply(Ev::Cancel(op));
+        sys.apply(Ev::Release(crate::world::Tid::Ctx));
+        if sys.dead {
+            return sys.report(ex, &[]);
+        }
+        if let Some(a) = sys.ack_for(op, reason, "late") {
+            sys.apply(Ev::Deliver(a));
+        }
+        if others_first && !sys.dead {
+            if let Some(a) = sys.ack_for(0, 0, "") {
+                sys.apply(Ev::Deliver(a));
+            }
+        }
+        // the quota is whole again: R publishes go out, the next is refused, a QoS 0 publish is not
+        for i in 0..=r {
+            sys.apply(Ev::Start(OpSpec::Publish(PublishSpec::simple(1 + (i % 2) as u8, "t/p", b"probe"))));
+        }
+        sys.apply(Ev::Start(OpSpec::Publish(PublishSpec::simple(0, "t/z", b"free"))));
+        sys.finish();
+        sys.report(ex, &["quota-refusal"]);
+    })
+}
+
 pub fn scenario(name: &str, params: &Value) -> Scenario {
+    if name == "C15/abandoned-queued" {
+        return abandoned_queued(name.to_string(), params.clone());
+    }
     if name == "C15/streams" {
         return streams(name.to_string(), params.clone());
     }
